@@ -350,8 +350,21 @@ impl EnumVariantToken {
     Self::new(format!("{}{}", self, category.variant_suffix()))
   }
 
+  /// Appends the schema type as a suffix, keeping only what can be part of an
+  /// identifier (`Vec<String>` contributes `VecString`).
   pub fn with_schema_suffix(self, schema_name: &str) -> Self {
-    Self::new(format!("{self}{schema_name}"))
+    let suffix = schema_name
+      .split(|c: char| !c.is_ascii_alphanumeric() && c != '_')
+      .filter(|part| !part.is_empty())
+      .map(|part| {
+        let mut chars = part.chars();
+        chars
+          .next()
+          .map(|first| first.to_ascii_uppercase().to_string() + chars.as_str())
+          .unwrap_or_default()
+      })
+      .collect::<String>();
+    Self::new(format!("{self}{suffix}"))
   }
 }
 
